@@ -240,13 +240,17 @@ impl<T, Ptr: PointerFamily> MetaSlotMap<T, Ptr> {
     }
 
     unsafe fn claim_index(&mut self, idx: usize) {
-        if idx >= self.capacity_impl() {
+        if idx >= self.capacity_impl() || self.idx_to_data[idx] != INVALID {
+            // out of range or already in use - there is nothing to take out of the free list
             return;
         }
 
         let entry = self.idx_to_data_free_list[idx];
         if entry.previous != INVALID {
             self.idx_to_data_free_list[entry.previous].next = entry.next;
+        } else {
+            // the claimed index is the head of the free list
+            self.idx_to_data_free_list_head = entry.next;
         }
         if entry.next != INVALID {
             self.idx_to_data_free_list[entry.next].previous = entry.previous;
